@@ -10,6 +10,7 @@ import (
 	"sort"
 	"strings"
 	"sync"
+	"sync/atomic"
 	"time"
 
 	"go.lsp.dev/protocol"
@@ -36,17 +37,18 @@ type gatedCall struct {
 }
 
 type Stub struct {
-	mu       sync.Mutex
-	cond     *sync.Cond
-	seq      int64
-	Silent   bool // free-running race stress: record nothing, share nothing
-	GatePub  bool // park PublishDiagnostics calls until released
-	GateCfg  bool // park workspace/configuration calls until released
-	pubs     []PubRec
-	gated    []*gatedCall
-	cfgQueue []any // scripted answers to workspace/configuration (last one repeats)
-	cfgCalls int
-	arrivals int64
+	mu        sync.Mutex
+	cond      *sync.Cond
+	seq       int64
+	Silent    bool // free-running race stress: record nothing, share nothing
+	GatePub   bool // park PublishDiagnostics calls until released
+	GateCfg   bool // park workspace/configuration calls until released
+	pubs      []PubRec
+	gated     []*gatedCall
+	cfgQueue  []any // scripted answers to workspace/configuration (last one repeats)
+	cfgCalls  int
+	arrivals  int64
+	cfgAtomic atomic.Pointer[[]any]
 }
 
 func NewStub() *Stub {
@@ -79,17 +81,12 @@ func (s *Stub) PublishDiagnostics(ctx context.Context, p *protocol.PublishDiagno
 
 func (s *Stub) Configuration(ctx context.Context, p *protocol.ConfigurationParams) ([]interface{}, error) {
 	if s.Silent {
-		s.mu.Lock()
-		var ans any
-		if len(s.cfgQueue) > 0 {
-			ans = s.cfgQueue[s.cfgCalls%len(s.cfgQueue)]
-		}
-		s.cfgCalls++
-		s.mu.Unlock()
-		if ans == nil {
+		// no lock: two refresh goroutines must not be ordered by the harness
+		q := s.cfgAtomic.Load()
+		if q == nil || len(*q) == 0 || (*q)[0] == nil {
 			return nil, nil
 		}
-		return []interface{}{ans}, nil
+		return []interface{}{(*q)[0]}, nil
 	}
 	s.mu.Lock()
 	if s.GateCfg {
@@ -120,6 +117,8 @@ func (s *Stub) Configuration(ctx context.Context, p *protocol.ConfigurationParam
 }
 
 func (s *Stub) SetConfigAnswers(a ...any) {
+	cp := append([]any(nil), a...)
+	s.cfgAtomic.Store(&cp)
 	s.mu.Lock()
 	s.cfgQueue = a
 	s.cfgCalls = 0
@@ -306,12 +305,12 @@ type SessOpt struct {
 }
 
 type Session struct {
-	Srv  *server.Server
-	Stub *Stub
-	Dir  string
-	Ctx  context.Context
-	Init *protocol.InitializeResult
-	vers map[protocol.DocumentURI]int32
+	Srv      *server.Server
+	Stub     *Stub
+	Dir      string
+	Ctx      context.Context
+	Init     *protocol.InitializeResult
+	vers     map[protocol.DocumentURI]int32
 	WaitInfo string
 }
 
